@@ -777,7 +777,7 @@ func TestHostileConstants(t *testing.T) {
 		}
 	}
 	// CAR framing
-	for _, l := range []uint64{0, 1, (32 << 20) - 1, 32 << 20, (32 << 20) + 1, 1 << 40, 1 << 63, ^uint64(0)} {
+	for _, l := range []uint64{0, 1, (32 << 20) - 1, 32 << 20, (32 << 20) + 1, 64 << 20, 256 << 20, 1 << 30, 1 << 32, 1 << 40, 1 << 63, ^uint64(0)} {
 		consts = append(consts, binary.AppendUvarint(nil, l), carWith(binary.AppendUvarint(nil, l)), carWith(append(binary.AppendUvarint(nil, l), 1, 0x71, 0x12, 0x20)))
 	}
 	consts = append(consts, bytes.Repeat([]byte{0xff}, 11), carWith(bytes.Repeat([]byte{0x80}, 12)), []byte("===="), []byte("A==="), []byte("AAA"), []byte("AAAA\n\n\n"), []byte("!!!!"))
